@@ -21,27 +21,44 @@ func c11Schema() *hx.Schema {
 	gArgs := func() []*hx.Arg {
 		return []*hx.Arg{{Name: "x", Type: hx.Named("Int")}, {Name: "y", Type: hx.Named("String")}, {Name: "z", Type: hx.ListOf(hx.Named("String"))}, {Name: "e", Type: hx.Named("E0")}}
 	}
+	seven := hx.I32(7)
+	tag := hx.Str("t1")
+	kArg := func() *hx.Arg { return &hx.Arg{Name: "k", Type: hx.Named("Int")} }
+	// T1 declares the interface's fields differently from T0: an extra defaulted argument in front of g's,
+	// a covariant return type and an extra argument on o
+	g1Args := append([]*hx.Arg{{Name: "w", Type: hx.Named("Int"), Default: &seven}}, gArgs()...)
 	return &hx.Schema{Types: []*hx.TypeDef{
 		{Kind: hx.KEnum, Name: "E0", Values: []*hx.EnumValue{{Name: "RED"}, {Name: "GREEN"}}},
 		{Kind: hx.KInput, Name: "In1", Inputs: []*hx.Arg{{Name: "x", Type: hx.Named("Float")}, {Name: "y", Type: hx.Named("Boolean").NN()}, {Name: "d", Type: hx.Named("Boolean"), Default: &yes}}},
 		{Kind: hx.KInput, Name: "In0", Inputs: []*hx.Arg{
 			{Name: "i", Type: hx.Named("Int")}, {Name: "s", Type: hx.Named("String"), Default: &dflt}, {Name: "r", Type: hx.Named("Int").NN()},
 			{Name: "e", Type: hx.Named("E0"), Default: &green}, {Name: "l", Type: hx.ListOf(hx.Named("Int").NN())}, {Name: "n", Type: hx.Named("In1")}}},
-		{Kind: hx.KObject, Name: "T0", Fields: []*hx.Field{
+		{Kind: hx.KInterface, Name: "I0", Fields: []*hx.Field{
 			{Name: "f", Type: hx.Named("String"), Args: fArgs()}, {Name: "g", Type: hx.Named("String"), Args: gArgs()},
-			{Name: "o", Type: hx.Named("T0")}, {Name: "n", Type: hx.Named("Int")}}},
+			{Name: "o", Type: hx.Named("I0"), Args: []*hx.Arg{kArg()}}, {Name: "n", Type: hx.Named("Int")}}},
+		{Kind: hx.KObject, Name: "T0", Interfaces: []string{"I0"}, Fields: []*hx.Field{
+			{Name: "f", Type: hx.Named("String"), Args: fArgs()}, {Name: "g", Type: hx.Named("String"), Args: gArgs()},
+			{Name: "o", Type: hx.Named("T0"), Args: []*hx.Arg{kArg()}}, {Name: "n", Type: hx.Named("Int")}}},
+		{Kind: hx.KObject, Name: "T1", Interfaces: []string{"I0"}, Fields: []*hx.Field{
+			{Name: "f", Type: hx.Named("String"), Args: fArgs()}, {Name: "g", Type: hx.Named("String"), Args: g1Args},
+			{Name: "o", Type: hx.Named("T1"), Args: []*hx.Arg{kArg(), {Name: "tag", Type: hx.Named("String"), Default: &tag}}}, {Name: "n", Type: hx.Named("Int")}}},
+		{Kind: hx.KUnion, Name: "U0", Members: []string{"T0", "T1"}},
 		{Kind: hx.KObject, Name: "Query", Fields: []*hx.Field{
 			{Name: "f", Type: hx.Named("String"), Args: fArgs()}, {Name: "g", Type: hx.Named("String"), Args: gArgs()},
-			{Name: "t", Type: hx.Named("T0")}, {Name: "ts", Type: hx.ListOf(hx.Named("T0"))}}},
+			{Name: "t", Type: hx.Named("T0")}, {Name: "ts", Type: hx.ListOf(hx.Named("T0"))},
+			{Name: "t1", Type: hx.Named("T1")}, {Name: "i", Type: hx.Named("I0")}, {Name: "is", Type: hx.ListOf(hx.Named("I0"))}, {Name: "u", Type: hx.Named("U0")}, {Name: "us", Type: hx.ListOf(hx.Named("U0"))}}},
 	}}
 }
 
 func c11Graph() *hx.Graph {
 	return &hx.Graph{Root: 0, Nodes: []*hx.Node{
 		{ID: 0, Type: "", F: map[string]hx.Val{"query": hx.Ref(1)}},
-		{ID: 1, Type: "Query", F: map[string]hx.Val{"f": hx.Str("qf"), "g": hx.Str("qg"), "t": hx.Ref(2), "ts": hx.List(hx.Ref(2), hx.Ref(3))}},
+		{ID: 1, Type: "Query", F: map[string]hx.Val{"f": hx.Str("qf"), "g": hx.Str("qg"), "t": hx.Ref(2), "ts": hx.List(hx.Ref(2), hx.Ref(3)),
+			"t1": hx.Ref(4), "i": hx.Ref(5), "is": hx.List(hx.Ref(2), hx.Ref(4), hx.Ref(3)), "u": hx.Ref(4), "us": hx.List(hx.Ref(5), hx.Ref(2))}},
 		{ID: 2, Type: "T0", F: map[string]hx.Val{"f": hx.Str("f2"), "g": hx.Str("g2"), "o": hx.Ref(3), "n": hx.I32(2)}},
 		{ID: 3, Type: "T0", F: map[string]hx.Val{"f": hx.Str("f3"), "g": hx.Str("g3"), "o": hx.Ref(2), "n": hx.I32(3)}},
+		{ID: 4, Type: "T1", F: map[string]hx.Val{"f": hx.Str("f4"), "g": hx.Str("g4"), "o": hx.Ref(5), "n": hx.I32(4)}},
+		{ID: 5, Type: "T1", F: map[string]hx.Val{"f": hx.Str("f5"), "g": hx.Str("g5"), "o": hx.Ref(4), "n": hx.I32(5)}},
 	}}
 }
 
@@ -187,32 +204,77 @@ func (g *c11gen) dir(label string) string {
 	return ""
 }
 
-func (g *c11gen) sels(con string, depth int, frags []string, label string) string {
+// c11Overlap: can a fragment with type condition on be spread inside a selection set on con?
+func c11Overlap(con, on string) bool {
+	if con == "Query" || on == "Query" {
+		return con == on
+	}
+	abstract := func(n string) bool { return n == "I0" || n == "U0" }
+	return con == on || abstract(con) || abstract(on)
+}
+
+type c11Frag struct{ name, on string }
+
+func (g *c11gen) sels(con string, depth int, frags []c11Frag, label string) string {
 	n := rapid.IntRange(1, 3).Draw(g.t, label+"n")
 	var out []string
+	var usable []c11Frag
+	for _, fr := range frags {
+		if c11Overlap(con, fr.on) {
+			usable = append(usable, fr)
+		}
+	}
 	for i := 0; i < n; i++ {
 		lab := fmt.Sprintf("%s_%d", label, i)
-		switch k := rapid.IntRange(0, 6).Draw(g.t, lab+"k"); {
+		k := rapid.IntRange(0, 6).Draw(g.t, lab+"k")
+		if con == "U0" && k <= 3 {
+			k = 5 // a union has no fields of its own
+		}
+		switch {
 		case k <= 1:
 			out = append(out, g.fieldF(lab)+g.dir(lab))
 		case k == 2:
 			out = append(out, g.fieldG(lab)+g.dir(lab))
 		case k == 3 && depth > 0:
 			if con == "Query" {
-				f := rapid.SampledFrom([]string{"t", "ts"}).Draw(g.t, lab+"cf")
-				out = append(out, f+g.dir(lab)+" { "+g.sels("T0", depth-1, frags, lab+"s")+" }")
+				f := rapid.SampledFrom([]string{"t", "ts", "t1", "i", "is", "u", "us"}).Draw(g.t, lab+"cf")
+				sub := map[string]string{"t": "T0", "ts": "T0", "t1": "T1", "i": "I0", "is": "I0", "u": "U0", "us": "U0"}[f]
+				out = append(out, f+g.dir(lab)+" { "+g.sels(sub, depth-1, frags, lab+"s")+" }")
 			} else {
-				out = append(out, "o"+g.dir(lab)+" { "+g.sels("T0", depth-1, frags, lab+"s")+" }")
+				arg := ""
+				if rapid.Bool().Draw(g.t, lab+"oarg") {
+					arg = "(k: " + g.intV(lab+"ok") + ")"
+				}
+				g.nKey++
+				out = append(out, fmt.Sprintf("k%d: o%s%s { %s }", g.nKey, arg, g.dir(lab), g.sels(con, depth-1, frags, lab+"s")))
 			}
-		case k == 4 && con == "T0" && len(frags) > 0:
-			out = append(out, "..."+rapid.SampledFrom(frags).Draw(g.t, lab+"fr")+g.dir(lab))
+		case k == 4 && len(usable) > 0:
+			out = append(out, "..."+rapid.SampledFrom(usable).Draw(g.t, lab+"fr").name+g.dir(lab))
 		case k == 5:
-			out = append(out, "... on "+con+g.dir(lab)+" { "+g.fieldF(lab+"i")+" }")
+			on := con
+			if con != "Query" {
+				on = rapid.SampledFrom([]string{"T0", "T1", "I0", "U0", con}).Draw(g.t, lab+"on")
+				if !c11Overlap(con, on) {
+					on = con
+				}
+			}
+			body := "tn: __typename"
+			if on != "U0" {
+				body = g.fieldF(lab+"i") + " " + g.fieldG(lab+"j")
+				if on != "Query" && depth > 0 && rapid.Bool().Draw(g.t, lab+"io") {
+					g.nKey++
+					body += fmt.Sprintf(" k%d: o(k: %s) { tn: __typename %s }", g.nKey, g.intV(lab+"iok"), g.fieldG(lab+"iog"))
+				}
+			}
+			out = append(out, "... on "+on+g.dir(lab)+" { "+body+" }")
 		default:
-			if con == "T0" {
-				out = append(out, "n")
-			} else {
+			switch con {
+			case "Query":
 				out = append(out, g.fieldG(lab))
+			case "U0":
+				out = append(out, "tn: __typename")
+			default:
+				out = append(out, "n")
 			}
 		}
 	}
@@ -237,12 +299,14 @@ var c11VarNames = []string{"i", "j", "s", "sd", "b", "c", "in", "l", "e", "x"}
 func genCaseC11(t *rapid.T) *c11Case {
 	g := &c11gen{t: t}
 	c := &c11Case{Strat: rapid.SampledFrom([]string{"R", "A"}).Draw(t, "strategy")}
-	nFr := rapid.IntRange(0, 2).Draw(t, "nFrags")
-	var frags, fragDefs []string
+	nFr := rapid.IntRange(0, 3).Draw(t, "nFrags")
+	var frags []c11Frag
+	var fragDefs []string
 	for i := 0; i < nFr; i++ {
 		name := fmt.Sprintf("F%d", i)
-		fragDefs = append(fragDefs, "fragment "+name+" on T0 { "+g.sels("T0", 1, frags, name)+" }")
-		frags = append(frags, name)
+		on := rapid.SampledFrom([]string{"T0", "I0", "I0", "T1", "U0"}).Draw(t, name+"on")
+		fragDefs = append(fragDefs, "fragment "+name+" on "+on+" { "+g.sels(on, 1, frags, name)+" }")
+		frags = append(frags, c11Frag{name, on})
 	}
 	nOps := rapid.IntRange(1, 3).Draw(t, "nOps")
 	var defs []string
@@ -250,7 +314,11 @@ func genCaseC11(t *rapid.T) *c11Case {
 	for i := 0; i < nOps; i++ {
 		name := fmt.Sprintf("Op%d", i)
 		opNames = append(opNames, name)
-		defs = append(defs, "query "+name+"("+c11VarDefs+") { "+g.sels("Query", 3, frags, name)+" t { "+g.sels("T0", 2, frags, name+"t")+" } }")
+		// every operation enters the graph through a field of its own choice, so that a shared fragment is
+		// resolved under different concrete types by different operations
+		entry := rapid.SampledFrom([]string{"t", "t1", "i", "is", "u", "us", "ts"}).Draw(t, name+"entry")
+		sub := map[string]string{"t": "T0", "ts": "T0", "t1": "T1", "i": "I0", "is": "I0", "u": "U0", "us": "U0"}[entry]
+		defs = append(defs, "query "+name+"("+c11VarDefs+") { "+g.sels("Query", 3, frags, name)+" "+entry+" { "+g.sels(sub, 2, frags, name+"t")+" } }")
 	}
 	defs = append(defs, fragDefs...)
 	if len(defs) > 1 {
@@ -365,6 +433,11 @@ func checkC11(c *c11Case) (ds []hx.Discrepancy, traits map[string]bool) {
 		seenOps[st.Op] = true
 		if _, has := got["errors"]; has {
 			traits["step-with-errors"] = true
+		} else {
+			traits["step-without-errors"] = true
+		}
+		if d, _ := got["data"].(map[string]interface{}); len(d) > 0 {
+			traits["step-with-data"] = true
 		}
 	}
 	return
@@ -382,7 +455,7 @@ func TestC11(t *testing.T) {
 		for k := range tr {
 			cl = append(cl, k)
 		}
-		for _, feat := range []struct{ name, needle string }{{"var-inside-object-literal", ": $"}, {"var-inside-list-literal", "[$"}, {"fragment", "fragment F"}, {"input-var", "$in"}, {"skip-include", "@"}} {
+		for _, feat := range []struct{ name, needle string }{{"var-inside-object-literal", ": $"}, {"var-inside-list-literal", "[$"}, {"fragment", "fragment F"}, {"fragment-on-abstract-type", " on I0"}, {"fragment-on-union", " on U0"}, {"input-var", "$in"}, {"skip-include", "@"}} {
 			if strings.Contains(c.Text, feat.needle) {
 				cl = append(cl, feat.name)
 			}
